@@ -7,6 +7,10 @@ KNOWN = [{
     "id": "C04-respent-change",
     "match": lambda f: "[respent-change]" in f["what"],
     "text": "a sent transaction whose change output was spent again (locked by another send built with minimum_confirmations=0) before it confirmed is never marked confirmed: the change record is relinked to the spending entry, apply_api_outputs only confirms via Unconfirmed/Reverted outputs and update_txs_via_kernel skips entries with both debit and credit",
+}, {
+    "id": "C04-released-inputs-not-rechecked",
+    "match": lambda f: "[released-inputs-not-rechecked]" in f["what"],
+    "text": "inputs released by a cancellation before broadcast (TTL expiry of the payer's entry, or a manual cancel) hang under a cancelled entry; when the counterparty broadcasts after all, a partial refresh / update_wallet_state never queries them again: recorded Unspent although spent on chain until a full refresh or scan",
 }]
 
 
